@@ -45,7 +45,9 @@ import (
 	"fmt"
 	"os"
 	"runtime"
+	"runtime/debug"
 	"sort"
+	"strconv"
 	"strings"
 	"sync"
 	"sync/atomic"
@@ -61,6 +63,8 @@ import (
 )
 
 func TestMain(m *testing.M) {
+	debug.SetGCPercent(800) // tiny live heap, much short-lived garbage (one paginator per execution)
+	debug.SetMemoryLimit(8 << 30)
 	deadlock.Opts.Disable = true // the cancel store uses go-deadlock mutexes; its detector pools timers across bubbles (fatal)
 	ev.Main(m)
 }
@@ -377,11 +381,13 @@ type exec struct {
 	prevH     int       // result of the immediately preceding HasNext (-1: the preceding op was not HasNext)
 	prevHFail bool
 
-	trace []byte
-	sig   string
-	vio   *violation
-	step_ int
-	scr   string
+	trace   []byte
+	answers []byte // answers of the script's HasNext/GetNext calls (not the loop's)
+	inLoop  bool
+	sig     string
+	vio     *violation
+	step_   int
+	scr     string
 }
 
 func (x *exec) desc() caseDesc {
@@ -586,14 +592,33 @@ func (x *exec) step(op byte) bool {
 	}
 	// --- HasNext / GetNext
 	if op == 'H' {
-		x.trace = append(x.trace, 'H', '=', map[bool]byte{true: 't', false: 'f'}[r.has], ' ')
+		c := byte('f')
+		if r.has {
+			c = 't'
+		}
+		x.trace = append(x.trace, 'H', '=', c, ' ')
 	} else if r.has {
-		x.trace = append(x.trace, []byte(fmt.Sprintf("G=%d ", r.item))...)
+		x.trace = append(strconv.AppendInt(append(x.trace, 'G', '='), int64(r.item), 10), ' ')
 	} else {
 		x.trace = append(x.trace, 'G', '=', 'e', ' ')
 	}
+	if !x.inLoop {
+		switch {
+		case op == 'H' && r.has:
+			x.answers = append(x.answers, 't')
+		case op == 'H':
+			x.answers = append(x.answers, 'f')
+		case r.has:
+			x.answers = append(x.answers, 'i', byte(r.item))
+		default:
+			x.answers = append(x.answers, 'e')
+		}
+	}
 	e := x.expected()
-	opn := map[byte]string{'H': "HasNext", 'G': "GetNext"}[op]
+	opn := "HasNext"
+	if op == 'G' {
+		opn = "GetNext"
+	}
 	if r.has {
 		switch {
 		case x.stopped != 0:
@@ -653,7 +678,15 @@ func (x *exec) step(op byte) bool {
 			}
 		}
 		if why != "" {
-			x.st.class[opn+"=no:"+why]++
+			k := x.st.noKeys[opn][why]
+			if k == "" {
+				if x.st.noKeys[opn] == nil {
+					x.st.noKeys[opn] = map[string]string{}
+				}
+				k = opn + "=no:" + why
+				x.st.noKeys[opn][why] = k
+			}
+			x.st.class[k]++
 		}
 	}
 	// --- HasNext is idempotent
@@ -703,7 +736,7 @@ func (x *exec) stateKey() uint64 {
 // run executes script + the canonical loop on a fresh paginator.
 func (x *exec) run(script []byte) {
 	x.scr = string(script)
-	x.trace = x.trace[:0]
+	x.trace, x.answers, x.inLoop = x.trace[:0], x.answers[:0], false
 	x.pos, x.stopped, x.dry, x.cp, x.vio, x.sig, x.step_ = 0, 0, false, 0, nil, "", 0
 	defer func() {
 		if x.cancel != nil {
@@ -723,6 +756,7 @@ func (x *exec) run(script []byte) {
 		x.step_++
 	}
 	x.trace = append(x.trace, '|', ' ')
+	x.inLoop = true
 	for i := 0; ; i++ {
 		if i > x.c.total+1 {
 			x.fail("iteration-does-not-end:kind="+x.kind, "the canonical loop went round more often than there are items")
@@ -764,11 +798,13 @@ type stats struct {
 	ambiguousStopA int64
 	ambiguousStopB int64
 	class          map[string]int64
+	noKeys         map[string]map[string]string
+	outcomes       map[uint64]struct{}
 	yielded        map[int]int64
 }
 
 func newStats() *stats {
-	return &stats{viols: map[string]*violAcc{}, states: map[uint64]struct{}{}, class: map[string]int64{}, yielded: map[int]int64{}}
+	return &stats{viols: map[string]*violAcc{}, states: map[uint64]struct{}{}, class: map[string]int64{}, noKeys: map[string]map[string]string{}, outcomes: map[uint64]struct{}{}, yielded: map[int]int64{}}
 }
 
 type batch struct {
@@ -788,22 +824,6 @@ func hashBytes(b []byte, seed uint64) uint64 {
 		h = (h ^ uint64(c)) * 1099511628211
 	}
 	return h
-}
-
-// the set of distinct answer traces observed (script + answers, without the collection), shared by the workers
-var outSet [256]struct {
-	mu sync.Mutex
-	m  map[uint64]struct{}
-}
-
-func addOutcome(h uint64) {
-	sh := &outSet[h>>56]
-	sh.mu.Lock()
-	if sh.m == nil {
-		sh.m = map[uint64]struct{}{}
-	}
-	sh.m[h] = struct{}{}
-	sh.mu.Unlock()
 }
 
 type sample struct {
@@ -835,7 +855,7 @@ func runBatch(b batch, rep *ev.Reporter, st *stats, samples *[]sample) {
 		}
 		st.validated++
 		st.yielded[x.pos]++
-		addOutcome(hashBytes(x.trace, 0))
+		st.outcomes[hashBytes(x.answers, uint64(x.pos))] = struct{}{}
 		if samples != nil && (n%997 == 5 || b.maxLen == 0) && len(*samples) < 3 {
 			*samples = append(*samples, sample{x.desc(), string(x.trace)})
 		}
@@ -928,6 +948,7 @@ type bounds struct {
 	PagesS                 int
 	LenStream, LenStreamF  int
 	PagesS2, LenStream2    int // a second, wider and shallower stream sweep
+	PagesS3, LenStream3    int // thorough: a third one in between
 	LenLong                int
 	Backoffs               []time.Duration
 	PagesSBackoff, LenSBkf int
@@ -937,7 +958,7 @@ func plan(thorough bool) (bs []batch, bd bounds) {
 	bd = bounds{Pages: 3, Items: 2, LenPlain: 5, LenPlainF: 4, PagesS: 2, LenStream: 5, LenStreamF: 3, PagesS2: 3, LenStream2: 4, LenLong: 2,
 		Backoffs: []time.Duration{0, grace / 4}, PagesSBackoff: 3, LenSBkf: 3}
 	if thorough {
-		bd = bounds{Pages: 4, Items: 2, LenPlain: 6, LenPlainF: 5, PagesS: 3, LenStream: 6, LenStreamF: 4, PagesS2: 4, LenStream2: 4, LenLong: 3,
+		bd = bounds{Pages: 4, Items: 2, LenPlain: 6, LenPlainF: 5, PagesS: 2, LenStream: 6, LenStreamF: 4, PagesS2: 4, LenStream2: 4, LenLong: 3, PagesS3: 3, LenStream3: 5,
 			Backoffs: []time.Duration{0, grace / 4, 3 * time.Millisecond}, PagesSBackoff: 4, LenSBkf: 4}
 	}
 	const plainAlpha, streamAlpha = "HGSCX", "HGDwWSCX"
@@ -993,6 +1014,9 @@ func plan(thorough bool) (bs []batch, bd bounds) {
 			}
 		}
 		sweep(bd.PagesS, bd.LenStream, bd.LenStreamF, []time.Duration{0}, []bool{true, false})
+		if bd.PagesS3 > 0 {
+			sweep(bd.PagesS3, bd.LenStream3, bd.LenStreamF, []time.Duration{0}, []bool{true, false})
+		}
 		sweep(bd.PagesS2, bd.LenStream2, bd.LenStreamF-1, []time.Duration{0}, []bool{true})
 		sweep(bd.PagesSBackoff, bd.LenSBkf, bd.LenSBkf-1, bd.Backoffs[1:], []bool{true})
 		for _, sz := range sizeSeqs(bd.PagesS2, bd.Items) {
@@ -1105,6 +1129,9 @@ func TestC19(t *testing.T) {
 		for k, v := range st.yielded {
 			tot.yielded[k] += v
 		}
+		for k := range st.outcomes {
+			tot.outcomes[k] = struct{}{}
+		}
 	}
 	for sig, v := range tot.viols {
 		rep.ViolationN(sig, v.first, v.n)
@@ -1128,11 +1155,8 @@ func TestC19(t *testing.T) {
 	rep.Coverage["batches"] = len(bs)
 	rep.Coverage["batches_per_paginator"] = perKind
 	rep.Coverage["constructor_fault_cases"] = tot.ctorFaults
-	distinct := 0
-	for i := range outSet {
-		distinct += len(outSet[i].m)
-	}
-	rep.Coverage["distinct_observed_outcomes"] = distinct
+	rep.Coverage["distinct_observed_outcomes"] = len(tot.outcomes)
+	rep.Coverage["distinct_observed_outcomes_rule"] = "distinct (answers of the HasNext/GetNext calls of the script, in order; number of items yielded in total) over all executions, whatever the collection"
 	rep.Coverage["result_classes"] = tot.class
 	rep.Coverage["items_yielded_per_execution_histogram"] = tot.yielded
 	rep.Coverage["stream_ambiguous_decisions"] = map[string]int64{
@@ -1144,6 +1168,7 @@ func TestC19(t *testing.T) {
 		"plain_pages_max": bd.Pages, "items_per_page_max": bd.Items, "plain_script_len": bd.LenPlain, "plain_script_len_with_fault": bd.LenPlainF,
 		"stream_pages_max_deep": bd.PagesS, "stream_script_len_deep": bd.LenStream, "stream_script_len_with_fault": bd.LenStreamF,
 		"stream_pages_max_wide": bd.PagesS2, "stream_script_len_wide": bd.LenStream2,
+		"stream_pages_max_mid": bd.PagesS3, "stream_script_len_mid": bd.LenStream3,
 		"stream_backoff_sweep": fmt.Sprintf("pages<=%d len<=%d backoffs=%v", bd.PagesSBackoff, bd.LenSBkf, bd.Backoffs),
 		"long_collections":     "20 pages of {10 | 0,10 | 0 | 0..0,1 | 3,0,0,7 | 10,0} items, script len <= " + fmt.Sprint(bd.LenLong+1),
 		"plain_alphabet":       "H G S C X", "stream_alphabet": "H G D w(grace/2) W(grace) S C X", "grace": grace.String(),
